@@ -20,25 +20,27 @@ AllNegs == {NTok(i) : i \in DOMAIN Lits}
 IsNeg(p) == p \in AllNegs
 NegOf(p) == Lits[CHOOSE i \in DOMAIN Lits : NTok(i) = p]
 BinOps == {"+", "-", "*", "/", "%", "<<", ">>", "&", "|", "xor"}
+(* comparisons: only as the operator directly below the root (their result is a bool, which no other operator of the tree takes) *)
+CmpOps == {"<", "<=", ">", ">=", "==", "!="}
 Roots == {"one", "list2"}
 
 VARIABLES toks, pend
 Init == toks = <<>> /\ pend = <<[ty |-> "root", d |-> 0, ng |-> FALSE]>>
 
-Arity(p) == IF p \in BinOps THEN 2 ELSE IF p \in {"neg", "ornil", "get"} THEN 1
+Arity(p) == IF p \in BinOps \cup CmpOps THEN 2 ELSE IF p \in {"neg", "ornil", "get"} THEN 1
             ELSE IF p = "list2" THEN 2 ELSE IF p = "one" THEN 1 ELSE 0
 Choose(p) ==
     /\ pend # <<>>
     /\ LET h == Head(pend) IN
        /\ IF h.ty = "root" THEN p \in Roots
           ELSE IF h.d >= MaxDepth THEN p \in LitIdx \cup (IF h.ng THEN NegIdx ELSE {})
-          ELSE p \in LitIdx \cup BinOps \cup {"neg", "ornil", "get"}
+          ELSE p \in LitIdx \cup BinOps \cup {"neg", "ornil", "get"} \cup (IF h.d = 1 /\ h.ng THEN CmpOps ELSE {})
        /\ toks' = Append(toks, p)
        \* the second element of a list is a plain literal (keeps the list space linear); negated leaves
        \* only as operands of a binary operator below the root `one`
        /\ pend' = [k \in 1..Arity(p) |-> [ty |-> "e", d |-> IF p = "list2" /\ k = 2 THEN MaxDepth ELSE h.d + 1,
-                                           ng |-> (p = "one") \/ (h.ng /\ p \in BinOps)]] \o Tail(pend)
-Next == \E p \in LitIdx \cup NegIdx \cup BinOps \cup {"neg", "ornil", "get"} \cup Roots : Choose(p)
+                                           ng |-> (p = "one") \/ (h.ng /\ p \in BinOps \cup CmpOps)]] \o Tail(pend)
+Next == \E p \in LitIdx \cup NegIdx \cup BinOps \cup CmpOps \cup {"neg", "ornil", "get"} \cup Roots : Choose(p)
 
 RECURSIVE Parse(_, _)
 Parse(ts, i) ==
